@@ -49,6 +49,10 @@ def main() -> None:
         "not_applicable": na,
     }
     (VERIF / "MANIFEST.json").write_text(json.dumps(m, indent=1) + "\n")
+    findings = []
+    for f in sorted((VERIF / "findings.d").glob("C*.json")):
+        findings.extend(json.loads(f.read_text()))
+    (VERIF / "known_findings.json").write_text(json.dumps(findings, indent=1) + "\n")
     print(f"MANIFEST.json: {len(checks)} checks, {len(na)} not claimed")
 
 
